@@ -11,6 +11,7 @@ def check(run, args):
     # (A)+(B)+(C) on the Dict universe: the model checks all permutations of the first pass; the real library is
     # rebuilt `repeats` times per case and the hook counts the distinct iteration orders actually taken
     files = [fam_render.gen_cases(run, "dicts", dict(MaxArity=3 if thorough else 2))]
+    outer = run.defer          # (this family is also run as one of several: the caller then collects the violations)
     run.defer = True
     fam_render.execute(run, files, repeats=128 if thorough else 32)
     # whole-file recipes in several processes
@@ -42,7 +43,7 @@ def check(run, args):
     run.cov.setdefault("harness_stats", []).append(st["stats"])
     run.assumptions += ["Go's map iteration order cannot be forced: orders are sampled (counted through the dictkey hook); the model covers all permutations",
                         "generators stay away from the trigger classes of the known findings F7 / F6b, which are exercised separately by the Dict universe"]
-    run.defer = False
+    run.defer = outer
     return run.finish(run.pending + viols)
 
 
